@@ -139,8 +139,9 @@ package comdoc
 //@   nopanic
 //@   requires 0 <= r.rootStorage && r.rootStorage < len(r.Files)
 //@   loop 0 sig "for len(stack) > 0" invariant 0 <= r.rootStorage && r.rootStorage < len(r.Files) && (stack == nil || allocated(stack)) && (files == nil || allocated(files)) && \
-//@        forall(k, 0, len(files), files[k] != nil)
+//@        forall(k, 0, len(files), files[k] != nil) && len(files) <= len(r.Files) && len(stack) <= len(files) + 1
 //@   ensures @every_listed_entry_exists ret1 == nil ==> forall(k, 0, len(ret0), ret0[k] != nil)
+//@   ensures @listing_and_work_bounded_by_the_directory_size len(ret0) <= len(r.Files)
 //@   modifies nothing
 //@
 //@ extern (RawDirEnt).Name
